@@ -74,6 +74,7 @@ func (a labelAddr) String() string  { return string(a) }
 func (c labeledConn) RemoteAddr() net.Addr { return labelAddr(c.label) }
 
 const (
+	waitBrief = 1 * time.Second // waits that only shape the workload (never an oracle)
 	waitShort = 5 * time.Second
 	waitLong  = 20 * time.Second
 )
@@ -258,7 +259,7 @@ func runCase(spec *caseSpec) *caseResult {
 			// wait (not an oracle) until the handler of the stream has consumed
 			// all it can and every WINDOW_UPDATE for it has arrived, so that
 			// the next DATA frame sits exactly at a boundary
-			ok := conn.WaitUntil(waitShort, func() bool {
+			ok := conn.WaitUntil(waitBrief, func() bool {
 				if model.Dead() {
 					return true
 				}
@@ -273,6 +274,12 @@ func runCase(spec *caseSpec) *caseResult {
 				obs("settle_timeouts")
 			}
 		case "gate":
+			// every frame sent so far must have been processed before the
+			// handler may move on (see Model.GateOpened)
+			if r, _ := conn.Sync(waitLong); r == spdycli.SyncTimeout {
+				res.Inconcl = "PING not answered within the time limit"
+			}
+			conn.Locked(func() { model.GateOpened(o.Tok) })
 			cs.openGate(o.Tok, o.Gate)
 			conn.Note(spdycli.Event{Note: fmt.Sprintf("gate %d of handler %d opened", o.Gate, o.Tok)})
 		case "headers":
@@ -284,10 +291,12 @@ func runCase(spec *caseSpec) *caseResult {
 		case "unknown":
 			werr = conn.UnknownControl(uint16(o.N), []byte{0, 0, 0, 1})
 		case "waitdone":
-			conn.WaitUntil(waitShort, func() bool {
+			if !conn.WaitUntil(waitBrief, func() bool {
 				d, _, _, _ := cs.Done(o.Tok)
 				return d || model.Dead()
-			})
+			}) {
+				obs("waitdone_timeouts")
+			}
 		}
 		if werr != nil {
 			break
@@ -295,6 +304,12 @@ func runCase(spec *caseSpec) *caseResult {
 	}
 
 	// ---- finale: let everything finish ----
+	if !dead() {
+		if r, _ := conn.Sync(waitLong); r == spdycli.SyncTimeout {
+			res.Inconcl = "PING not answered within the time limit"
+		}
+	}
+	conn.Locked(func() { model.GateOpened(-1) })
 	cs.openAllGates()
 	conn.Note(spdycli.Event{Note: "finale: all gates opened"})
 	if !dead() {
